@@ -191,6 +191,13 @@ Theorem C04_erat_model_spec : forall l1 maxKB, 16 <= maxKB -> maxKB <= 8192 ->
 Proof. exact erat_model_spec. Qed.
 Print Assumptions C04_erat_model_spec.
 
+(** SievingPrimes: the kernel that produces its own sieving primes (for [7, sqrt(stop)], recursively, depth <= 5 below
+    2^64) - a self-contained executable model in which no specification function occurs - returns the same *)
+Theorem C04_erat_self_spec : forall l1 maxKB, 16 <= maxKB -> maxKB <= 8192 ->
+  forall s e, 7 <= s -> s <= e -> e <= MAX64 -> erat_self l1 maxKB s e = primes_between s e.
+Proof. exact erat_self_spec. Qed.
+Print Assumptions C04_erat_self_spec.
+
 (** count_primes over the model kernel (2, 3, 5 from the small table + the kernel on [max(start, 7), stop]) is exactly
     pi(stop) - pi(start - 1), for every configuration and every interval below 2^64: no hypothesis about the sieve *)
 From PS Require Import Proofs.KernelInstP.
